@@ -86,7 +86,7 @@ OrientSignature(c0, c) == "orientation"
 \* frozen-offset wirelength did not.
 WithOrient(c, r) == [c EXCEPT !.cells = [i \in 1..Len(c.cells) |-> [c.cells[i] EXCEPT !.o = r.cells[i].o]]]
 WlSignature(ref0, prev, c) ==
-    IF Hpwl(WithOrient(c, ref0)) <= Hpwl(WithOrient(prev, ref0)) /\ WithOrient(c, ref0) # c
+    IF Hpwl(WithOrient(c, ref0)) <= Hpwl(WithOrient(prev, ref0)) /\ (WithOrient(c, ref0) # c \/ WithOrient(prev, ref0) # prev)
     THEN "frozen-pin-offsets-after-reorientation"
     ELSE "wirelength"
 C11Signature(p) == IF p.ow < 0 \/ p.ow > 1000 THEN "ordering-width-outside-0-1" ELSE "moved"
